@@ -330,6 +330,13 @@ def _run(ctx, pool):
                         make_request, on_result, timeout=1500, stop=stopped)
     configs.append(dict(run="complete derivations", size=m["size"], distinct_states=res.distinct, generated=res.generated,
                         scenarios=res.scenarios, tlc_wall_s=round(res.wall, 1)))
+    # conditions of four comparisons, every grouping (a AND b AND c OR d ...): the small vocabulary, one more leaf than the main run
+    res = None if stopped() else fe.stream_tlc(ctx, pool, "c10four", fe.cfg("S", ["sel_where_tree", "del_tree"], init="GenPick", next_="GenNextComplete",
+                                                                            invariants=("GrammarUsesOnly",), bounds=dict(MaxLeaves=4)),
+                                               make_request, on_result, timeout=900, stop=stopped)
+    if res is not None:
+        configs.append(dict(run="conditions of up to four comparisons", size="S", distinct_states=res.distinct, generated=res.generated,
+                            scenarios=res.scenarios, tlc_wall_s=round(res.wall, 1)))
     t = tier["trail"]
     res = None if stopped() else fe.stream_tlc(ctx, pool, "c10trail", fe.cfg(t["size"], t["slices"], stmts=t["stmts"], vocab="MC_TrailVocab",
                                                      vocab2="MC_None", max_junk=1, at_end=True, init="GenPick",
